@@ -338,14 +338,29 @@ func runC16(run *Run, replay string) Spec {
 	spec := Spec{
 		Level: "proof",
 		Rule: "Cache-Control header value lists (0-3 values) generated from the directive grammar with case/whitespace/quoting/number/separator mutations, " +
-			"token soup and random bytes, one PRNG; non-trivial = the Go parser accepts the header (so a storage decision is made from parsed directives); distinct = distinct (values, default)",
+			"token soup and random bytes, one PRNG; non-trivial = the Go parser accepts the header (so a storage decision is made from parsed directives); distinct = distinct (values, default). " +
+			"Engine side: histories of 4-9 requests (generated operations, repeated, with other numbers / booleans) on the federation bench with a recording cache attached per request; per subgraph one Cache-Control policy with its own lifetime " +
+			"(storable and refusing forms), optionally entities a subgraph does not know (null inside _entities), a subgraph whose every answer carries an error, and cache faults (GetMany / SetMany errors, evictions = partial hits); " +
+			"oracles: response with cache == response without cache, a cache failure never fails a request, every item handed to SetMany has a lifetime a storable error-free response of this history allows",
 		TrustedBase: []string{"Lean 4 kernel", "axioms: propext, Classical.choice, Quot.sound only (audited)", "hand-written Lean model GqlVerif.Misc.CacheControl tied to the Go code by this differential run and by regenerated character/directive tables",
 			"Go harness vh (generator, RFC 9111 splitter used as independent oracle)", "net/http.Header canonicalisation"},
-		Assumptions: []string{"the entity cache backend honours the TTL it is given", "RFC 9111 reading: members split at commas outside quoted strings, names case-insensitive, first occurrence of a lifetime directive wins"},
+		Assumptions: []string{"the entity cache backend honours the TTL it is given", "engine side: subgraph data does not change during a history; the cache never returns a value it was not given", "RFC 9111 reading: members split at commas outside quoted strings, names case-insensitive, first occurrence of a lifetime directive wins"},
 	}
 	if replay != "" {
 		b, err := os.ReadFile(replay)
 		if err == nil {
+			var fe struct {
+				Violation struct {
+					Input struct {
+						Engine  bool        `json:"engine"`
+						History *c16History `json:"history"`
+					} `json:"input"`
+				} `json:"violation"`
+			}
+			if json.Unmarshal(b, &fe) == nil && fe.Violation.Input.Engine && fe.Violation.Input.History != nil {
+				c16EngineCheck(run, fe.Violation.Input.History)
+				return spec
+			}
 			var f struct {
 				Violation struct {
 					Input c16Case `json:"input"`
@@ -382,5 +397,22 @@ func runC16(run *Run, replay string) Spec {
 		vs, def := c16Gen(r)
 		c16Check(run, vs, def)
 	})
+	// engine side: request histories on the federation bench with a recording cache attached (c16e.go)
+	ne := 400
+	if run.Tier == "thorough" {
+		ne = 8000
+	}
+	if layouts, err := fedGetLayouts(); err == nil {
+		l := layouts["L1"]
+		parallelFor(ne, 8, func(i int) {
+			if run.NViolations() >= 20 {
+				return
+			}
+			r := subRng(run.Seed, 1_000_000_000+i)
+			c16EngineCheck(run, c16GenHistory(r, l))
+		})
+	} else {
+		run.Violate(Violation{Kind: "oracle", Clause: "layout_builds", Detail: err.Error()}, "")
+	}
 	return spec
 }
